@@ -126,6 +126,10 @@ def _arg(x, argtype):
         return np.array(x, dtype=np.float64)
     if argtype == "int":
         return int(x)
+    if argtype == "np.float32":
+        return np.float32(x)
+    if argtype in ("np.int16", "np.uint8", "np.int64"):
+        return getattr(np, argtype[3:])(int(x))
     raise ValueError(argtype)
 
 
@@ -160,6 +164,16 @@ def observe_fmt(job):
            "arg": argtype, "cls": sexa_class(kind, n), "err": "", "wf": False,
            "neg": False, "u": 0, "m": 0, "cs": 0, "text": "", "rt": False, "yi": 0, "ydev": 0}
     x = n / FINE_PER_DEG[kind]           # nearest double of the exact rational
+    if argtype == "np.float32":
+        # the value handed over is the single-precision number itself: re-express it in fine units (it is within
+        # half a fine unit of an integer N; values closer than one fine unit to a rounding tie are left out)
+        f = float(np.float32(x)) * FINE_PER_DEG[kind]
+        n = int(round(f))
+        if abs(abs(f) % 10 - 5) <= 1.0 or (kind == "hms" and not 0 <= n < TURN_FINE):
+            return None
+        rec["n"] = n
+        rec["id"] = "%s/%d/%s" % (fn, n, argtype)
+        rec["cls"] = sexa_class(kind, n)
     try:
         s = getattr(at, fn)(_arg(x, argtype))
         rec["text"] = s if isinstance(s, str) else repr(s)
@@ -665,10 +679,16 @@ def run(ctx):
             jobs.append((kind, n, ARGTYPES[rng.randrange(3)]))
         for d in range(0, 91 if kind == "dms" else 360, 1 if kind == "dms" else 7):   # python ints
             jobs.append((kind, d * FINE_PER_DEG[kind], "int"))
+            jobs.append((kind, d * FINE_PER_DEG[kind], ("np.int16", "np.int64", "np.uint8")[d % 3] if d < 256 else "np.int16"))
             if kind == "dms" and d:
                 jobs.append((kind, -d * FINE_PER_DEG[kind], "int"))
+                jobs.append((kind, -d * FINE_PER_DEG[kind], ("np.int16", "np.int64")[d % 2]))
+        # single-precision inputs (a float32 catalogue column)
+        for _ in range(3000 if quick else 30000):
+            n = rng.randint(-lim if kind == "dms" else 0, lim)
+            jobs.append((kind, n, "np.float32"))
     jobs = sorted(set(jobs))
-    fmt_recs = _pool_map(observe_fmt, jobs, 500)
+    fmt_recs = [r for r in _pool_map(observe_fmt, jobs, 500) if r is not None]
     n_window = sum(1 for r in fmt_recs
                    if min((abs(r["n"]) % FINE_PER_MIN), FINE_PER_MIN - abs(r["n"]) % FINE_PER_MIN) <= W)
 
@@ -727,7 +747,7 @@ def run(ctx):
     ctx.assumptions += [
         "exact rounding ties of the printed digit (|N| mod 10 = 5 in units of 1e-3 arcsec / 1e-3 s) are not generated: the property does not fix the tie direction",
         "the documented text format [+-]DD:MM:SS.SS / HH:MM:SS.SS (two decimals) is the 'last printed digit'",
-        "formatter arguments are python floats, numpy float64 scalars, 0-d arrays and python ints (the formatters are documented for one float); array arguments are exercised on gcd / bear / translate",
+        "formatter arguments are python floats, numpy float64 / float32 scalars, 0-d arrays, python ints and numpy int16 / int64 / uint8 scalars (the formatters are documented for one number); array arguments are exercised on gcd / bear / translate",
         "RA inputs to dec2hms are in [0,360) as in the property's quantifier",
         "inputs are exact two-limb integers passed as the nearest double (<= 3e-14 deg off), far inside the 1e-9 deg tolerance",
         "bearing clauses are evaluated only where the bearing is a well conditioned function of double inputs: separation in [0.01,179.99] deg (loops: r in [0.1,179.9] deg) and the first point >= 1 deg from a pole; bearings are compared modulo 360 deg",
@@ -745,7 +765,7 @@ def replay(ctx, rec):
     r = rec["detail"]["record"]
     kind = r["kind"]
     if kind == "fmt":
-        recs = [observe_fmt(("dms" if r["fn"] == "dec2dms" else "hms", r["n"], r["arg"]))]
+        recs = [x for x in [observe_fmt(("dms" if r["fn"] == "dec2dms" else "hms", r["n"], r["arg"]))] if x is not None]
         mod = "Sexa_Trace"
     elif kind == "parse":
         recs = [observe_parse(("dms" if r["fn"] == "dec2dec" else "hms", r["neg"], r["u"], r["m"],
